@@ -404,8 +404,15 @@ class Run:
                 return
         self.violations.append((key, what, replay_path))
 
-    def finish(self, rule, checker_cmd, trusted_base, explanation=''):
+    def finish(self, rule, checker_cmd, trusted_base, explanation='', bounds=None):
         wall = time.time() - self.t0
+        seen = set(); fl = []
+        for fn in self.functions:
+            if fn not in seen:
+                seen.add(fn); fl.append(fn)
+        self.functions = fl
+        if bounds is None:
+            bounds = sorted({str(q.get('bounds')) for q in self.queries if q.get('bounds')})
         core = [q for q in self.queries if q.get('core')]
         done = [q for q in self.queries if q.get('verdict') in ('success', 'unsat', 'holds')]
         nontrivial = [q for q in done if not q.get('trivial')]
@@ -423,6 +430,7 @@ class Run:
             'explanation': explanation or rule,
             'exhaustive': False,
             'functions_encoded': self.functions,
+            'bounds': bounds,
             'queries': self.queries,
             'solver_time_s': round(sum(q.get('solver_s', 0) or 0 for q in self.queries), 2),
             'not_completed': [q.get('harness') or q.get('name') for q in self.queries if q.get('verdict') in ('timeout', 'oom', 'error', 'vacuous', 'unknown')],
